@@ -19,28 +19,40 @@ EXTENDS Naturals, Sequences, FiniteSets, TLC, IOUtils
 
 HasTy(t) == t.k # "tnone"
 
+(* TLC passes operator arguments unevaluated and, inside RECURSIVE operators, evaluates them again at every use, so
+   a chain of `seq[i]`, `e.body`, ... is walked again and again.  Bind evaluates its argument once, by binding it as
+   the only element of a set; the counting operators below go through it at every node (measured: 4x faster). *)
+Bind(x, F(_)) == CHOOSE n \in {F(y) : y \in {x}} : TRUE
+
 RECURSIVE SitesE(_)
 RECURSIVE SitesS(_)
-RECURSIVE SumSeq(_, _, _)
+RECURSIVE SitesE1(_)
+RECURSIVE SitesS1(_)
+RECURSIVE SumFrom(_, _, _)
 
-SumSeq(seq, i, which) ==
+SumFrom(seq, i, which) ==
     IF i > Len(seq) THEN 0
-    ELSE (IF which = "e" THEN SitesE(seq[i]) ELSE SitesS(seq[i])) + SumSeq(seq, i + 1, which)
+    ELSE (IF which = "e" THEN SitesE(seq[i]) ELSE SitesS(seq[i])) + SumFrom(seq, i + 1, which)
 
-SumArms(arms, i) ==
-    LET RECURSIVE G(_)
-        G(j) == IF j > Len(arms) THEN 0
-                ELSE (IF "c" \in DOMAIN arms[j] THEN SitesE(arms[j].c) ELSE 0) + SumSeq(arms[j].body, 1, "s") + G(j + 1)
-    IN G(i)
+SumSeq(seq0, i, which) == Bind(seq0, LAMBDA seq : SumFrom(seq, i, which))
 
-SumFields(fs) ==
-    LET RECURSIVE G(_)
-        G(j) == IF j > Len(fs) THEN 0 ELSE SitesE(fs[j].e) + G(j + 1)
-    IN G(1)
+SumArms(arms0, i) ==
+    LET RECURSIVE G(_, _)
+        G(arms, j) == IF j > Len(arms) THEN 0
+                      ELSE (IF "c" \in DOMAIN arms[j] THEN SitesE(arms[j].c) ELSE 0) + SumSeq(arms[j].body, 1, "s") + G(arms, j + 1)
+    IN Bind(arms0, LAMBDA arms : G(arms, i))
 
-ParamSites(ps) == Cardinality({j \in 1..Len(ps) : HasTy(ps[j].ty) /\ ps[j].ty.k # "tfn"})
+SumFields(fs0) ==
+    LET RECURSIVE G(_, _)
+        G(fs, j) == IF j > Len(fs) THEN 0 ELSE SitesE(fs[j].e) + G(fs, j + 1)
+    IN Bind(fs0, LAMBDA fs : G(fs, 1))
 
-SitesE(e) ==
+\* a parameter marked keep: its annotation is needed to type a call made through the parameter (SyltAnnotFam!PK)
+Keeps(p) == "keep" \in DOMAIN p /\ p.keep
+ParamSites(ps) == Cardinality({j \in 1..Len(ps) : HasTy(ps[j].ty) /\ ps[j].ty.k # "tfn" /\ ~Keeps(ps[j])})
+
+SitesE(e0) == Bind(e0, SitesE1)
+SitesE1(e) ==
     CASE e.k \in {"int", "float", "str", "bool", "nil", "var", "std", "self"} -> 0
       [] e.k = "bin" -> SitesE(e.l) + SitesE(e.r)
       [] e.k = "un" -> SitesE(e.a)
@@ -55,7 +67,8 @@ SitesE(e) ==
       [] e.k \in {"fld", "idx"} -> SitesE(e.e)
       [] e.k = "variant" -> IF e.has THEN SitesE(e.e) ELSE 0
 
-SitesS(st) ==
+SitesS(st0) == Bind(st0, SitesS1)
+SitesS1(st) ==
     CASE st.k = "def" -> (IF HasTy(st.ty) /\ st.e.k # "fn" THEN 1 ELSE 0) + SitesE(st.e)
       [] st.k = "asg" -> (IF st.t.k = "fld" THEN SitesE(st.t.e) ELSE 0) + SitesE(st.e)
       [] st.k = "loop" -> SitesE(st.c) + SumSeq(st.body, 1, "s")
